@@ -286,6 +286,9 @@ static int uninit_mask;                            // bit k: k-th registered pri
 static void note_init(void* a, char kind, int clk)
 {
   for(int i = 0; i < 64; ++i) if(inited[i].addr == a) { inited[i].kind = kind; inited[i].clk = clk; return; }
+  // a free slot first (round 6: the records of objects with static storage duration live as long as the process and must not
+  // be overwritten by the ring), the ring only when the table is full
+  for(int i = 0; i < 64; ++i) if(inited[i].addr == 0) { inited[i].addr = a; inited[i].kind = kind; inited[i].clk = clk; return; }
   inited[inited_next].addr = a; inited[inited_next].kind = kind; inited[inited_next].clk = clk;
   inited_next = (inited_next + 1) % 64;
 }
@@ -299,6 +302,31 @@ static const InitRec* find_init(void* a, char kind)
 {
   for(int i = 0; i < 64; ++i) if(inited[i].addr == a && inited[i].kind == kind) return &inited[i];
   return 0;
+}
+
+// ---- failing pthread_create (round 6) ------------------------------------------------------------------
+// POSIX: after a failed pthread_create the contents of *thread are undefined; glibc has stored the descriptor it then frees.
+// The virtual pthread_create does the same on EVERY failure: it writes the handle of a thread that has exited and been joined.
+static int fail_next_create, stale_ready, stale_joins;
+static pthread_t stale_thr;
+static void* stale_nop(void*) { return 0; }
+static void stale_cleanup(void) { __real_pthread_join(stale_thr, 0); }
+static pthread_t stale_handle(void)
+{
+  if(!stale_ready) {
+    // the thread exits at once but is joined only at process exit, so that glibc cannot hand the same descriptor to a later
+    // thread of the scheduler: for the library the handle is as dangling as glibc's, for the scheduler it is unambiguous
+    if(__real_pthread_create(&stale_thr, 0, stale_nop, 0) == 0) atexit(stale_cleanup);
+    else memset(&stale_thr, 0x5a, sizeof(stale_thr));
+    stale_ready = 1;
+  }
+  return stale_thr;
+}
+static int is_stale(pthread_t thr)
+{
+  if(!stale_ready || !pthread_equal(thr, stale_thr)) return 0;
+  for(int i = 0; i < VS_MAXT; ++i) if(real_started[i] && !real_joined[i] && pthread_equal(real_thr[i], thr)) return 0;   // handle reused by a live thread
+  return 1;
 }
 
 // ---- capture mode -------------------------------------------------------------------------------------
@@ -390,6 +418,9 @@ void vs_move_steal(int t)
 }
 void vs_move_clock(long long n) { prim_clock(n); }
 void vs_move_rot(int c) { if(c >= 0 && c < VS_NC) prim_rotate(c); }
+
+void vs_fail_next_create(int on) { fail_next_create = on; }
+int vs_stale_joins(void) { return stale_joins; }
 
 void vs_idle(void)
 {
@@ -641,9 +672,14 @@ int __wrap_sem_post(sem_t* s)
 int __wrap_pthread_create(pthread_t* thr, const pthread_attr_t* attr, void* (*fn)(void*), void* arg)
 {
   if(cur_tid < 0) return __real_pthread_create(thr, attr, fn, arg);
+  if(fail_next_create) {                           // scripted failure (model: ThStartF): nothing is created, no scheduling point
+    fail_next_create = 0;
+    *thr = stale_handle();
+    return EAGAIN;
+  }
   int ch = vh_tid_of_arg(arg);
   long long r = do_call(cur_tid, mk(C_CREATE, ch, 0, 0));
-  if(r != 0) return (int)r;
+  if(r != 0) { *thr = stale_handle(); return (int)r; }
   spawn_real(ch, fn, arg);                       // the virtual thread is TRun; the real one waits for its first Run move
   *thr = real_thr[ch];
   // second scheduling point (model: ThStartRet, pending call = yield): pthread_create has succeeded and has not yet
@@ -655,6 +691,11 @@ int __wrap_pthread_join(pthread_t thr, void** retval)
 {
   if(aborting) return 0;                         // teardown: the scheduler joins the real threads itself
   if(cur_tid < 0) return __real_pthread_join(thr, retval);
+  if(is_stale(thr)) {                              // a handle left by a failed pthread_create: joining it is undefined - reported, not executed
+    ++stale_joins;
+    if(retval) *retval = (void*)(intptr_t)0xBADBAD;
+    return ESRCH;
+  }
   int ch = -1;
   for(int i = 0; i < VS_MAXT; ++i) if(real_started[i] && !real_joined[i] && pthread_equal(real_thr[i], thr)) ch = i;
   if(ch < 0) for(int i = 0; i < VS_MAXT; ++i) if(real_started[i] && pthread_equal(real_thr[i], thr)) ch = i;
@@ -670,6 +711,7 @@ static int join_variant(pthread_t thr, void** retval, int is_try, const struct t
   *handled = 0;
   if(aborting) { *handled = 1; return 0; }
   if(cur_tid < 0) return 0;
+  if(is_stale(thr)) { ++stale_joins; *handled = 1; if(retval) *retval = (void*)(intptr_t)0xBADBAD; return ESRCH; }
   int ch = -1;
   for(int i = 0; i < VS_MAXT; ++i) if(real_started[i] && !real_joined[i] && pthread_equal(real_thr[i], thr)) ch = i;
   if(ch < 0) for(int i = 0; i < VS_MAXT; ++i) if(real_started[i] && pthread_equal(real_thr[i], thr)) ch = i;
